@@ -15,6 +15,7 @@ import (
 	"net/http/httptest"
 	"net/url"
 	"reflect"
+	"runtime"
 	"sort"
 	"strconv"
 	"strings"
@@ -305,12 +306,17 @@ type inprocHTTP struct {
 	opened, closed int32
 	gate           func(n int) (wait chan struct{}, outcome func() (status int, fail bool))
 	n              int
+	closeReturned  bool // set by the harness once Channel.Close has returned
+	lateDo         int  // requests issued after that
 }
 
 func (c *inprocHTTP) Do(req *http.Request) (*http.Response, error) {
 	c.mu.Lock()
 	c.n++
 	n := c.n
+	if c.closeReturned {
+		c.lateDo++
+	}
 	c.mu.Unlock()
 	status, fail := 0, false
 	if c.gate != nil {
@@ -602,6 +608,44 @@ func TestC19(t *testing.T) {
 		cruns = append(cruns, cobs{strings.Join(script, " "), got})
 		res.Case("chan/"+strings.Join(script, " "), true, strings.Join(script, " "))
 	}
+	// ---- (c') Close right after Send, before the request goroutine has had a chance to run: Close
+	// must still wait for it (no request may be issued, and no goroutine be alive, once it returned)
+	func() {
+		defer runtime.GOMAXPROCS(runtime.GOMAXPROCS(1))
+		for i := 0; i < pick(40, 400); i++ {
+			nsend := 1 + i%3
+			synctest.Test(t, func(t *testing.T) {
+				hc := &inprocHTTP{}
+				hc.gate = func(n int) (chan struct{}, func() (int, bool)) {
+					return nil, func() (int, bool) { return 204, false }
+				}
+				ch := jhttp.NewChannel("http://x/", &jhttp.ChannelOptions{Client: hc})
+				for k := 0; k < nsend; k++ {
+					ch.Send([]byte(`{"jsonrpc":"2.0","method":"m"}`))
+				}
+				if i%2 == 1 {
+					runtime.Gosched()
+				}
+				ch.Close()
+				hc.mu.Lock()
+				hc.closeReturned = true
+				hc.mu.Unlock()
+				synctest.Wait()
+				hc.mu.Lock()
+				late, n := hc.lateDo, hc.n
+				hc.mu.Unlock()
+				script := fmt.Sprintf("send x%d; close (no pause)", nsend)
+				res.Case(fmt.Sprintf("chan-close-now/%d/%d", nsend, i%2), true, script)
+				res.Count("close-right-after-send")
+				if late > 0 || n != nsend {
+					res.Violatef("request goroutine left behind after Channel.Close: a request was issued after Close had returned", script, "%d of %d requests issued after Close returned (%d issued in all)", late, nsend, n)
+				}
+				if left := libGoroutines(); len(left) > 0 {
+					res.Violatef("request goroutine left behind after Channel.Close: "+left[0], script, "%v", left)
+				}
+			})
+		}
+	}()
 	cm := runOracle(t, clines)
 	for i, m := range cm {
 		res.Traces++
